@@ -239,6 +239,7 @@ class Executor(Generic[TContext]):
     collected_errors: CollectedErrors
     pending_incremental_futures: set[Future[Any]]
     background_futures: set[Future[Any]]
+    serial_field_futures: list[Future[Any]] | None
     async_work_finished_hook_task: Future[None] | None
     middleware_manager: MiddlewareManager | None
     error_propagation: bool
@@ -300,6 +301,7 @@ class Executor(Generic[TContext]):
         # created as shallow copies that replace only the per-execution state.
         self.pending_incremental_futures = set()
         self.background_futures = set()
+        self.serial_field_futures = None
         self.async_work_finished_hook_task = None
         self._relevant_sub_fields: dict[
             tuple, tuple[tuple[FieldDetails, ...], CollectedFields]
@@ -598,6 +600,8 @@ class Executor(Generic[TContext]):
                 # Reject the whole operation rather than serially completing the
                 # remaining fields with located abort errors.
                 raise self.abort_error()
+            abandoned: list[Future[Any]] = []
+            self.serial_field_futures = abandoned
             result = self.execute_field(
                 parent_type,
                 source_value,
@@ -611,11 +615,23 @@ class Executor(Generic[TContext]):
 
                 async def set_result() -> dict[str, Any]:
                     results[response_name] = await result
+                    # siblings abandoned after a synchronous failure inside this
+                    # field must have settled before the next field starts
+                    while abandoned:
+                        await abandoned.pop()
                     return results
 
                 return set_result()
 
             results[response_name] = result
+            if abandoned:
+
+                async def settled() -> dict[str, Any]:
+                    while abandoned:
+                        await abandoned.pop()
+                    return results
+
+                return settled()
             return results
 
         return async_reduce(reducer, grouped_field_set.items(), {})
@@ -656,7 +672,7 @@ class Executor(Generic[TContext]):
                 # Ensure that awaitables created by other fields are settled,
                 # as they may also fail.
                 self.settle_in_background(
-                    [results[field] for field in awaitable_fields]
+                    [results[field] for field in awaitable_fields], True
                 )
             raise
 
@@ -1059,7 +1075,9 @@ class Executor(Generic[TContext]):
                 future.cancel()
             await gather(*pending, return_exceptions=True)
 
-    def settle_in_background(self, awaitables: list[Awaitable[Any]]) -> None:
+    def settle_in_background(
+        self, awaitables: list[Awaitable[Any]], abandoned_siblings: bool = False
+    ) -> None:
         """Settle the given pending awaitables in the background.
 
         A bubbling synchronous error must not wait for pending sibling awaitables,
@@ -1079,6 +1097,10 @@ class Executor(Generic[TContext]):
         background_futures = self.background_futures
         background_futures.add(future)
         future.add_done_callback(background_futures.discard)
+        if abandoned_siblings and self.serial_field_futures is not None:
+            # siblings abandoned inside a serially executed field still belong
+            # to its subtree, which must be complete before the next field starts
+            self.serial_field_futures.append(future)
 
     def track_async_work(self, values: Sequence[Any]) -> None:
         """Track possibly awaitable values as pending asynchronous work.
@@ -1346,7 +1368,7 @@ class Executor(Generic[TContext]):
                 # Settle any awaitable items already collected in the background,
                 # so that the current error is not delayed.
                 self.settle_in_background(
-                    [completed_results[index] for index in awaitable_indices]
+                    [completed_results[index] for index in awaitable_indices], True
                 )
             raise
 
@@ -1491,7 +1513,7 @@ class Executor(Generic[TContext]):
             maybe_awaitables = [completed_results[index] for index in awaitable_indices]
             maybe_awaitables.extend(collect_iterator_awaitables(iterator, is_awaitable))
             if maybe_awaitables:
-                self.settle_in_background(maybe_awaitables)
+                self.settle_in_background(maybe_awaitables, True)
             raise
 
         if not awaitable_indices:
